@@ -78,6 +78,51 @@ let answer id (r : string res) =
 
 let rmap f = function Ok a -> Ok (f a) | Err e -> Err e | Panic p -> Panic p | OutOfFuel -> OutOfFuel
 
+
+(* ---------- converter helpers ---------- *)
+let utf8_of_str (s : str) : string =
+  let b = Buffer.create 16 in
+  List.iter (fun c -> Buffer.add_utf_8_uchar b (Uchar.of_int (int_of_n c))) s;
+  Buffer.contents b
+let hex_of_utf8 (s : string) : string =
+  (* names are ASCII here *)
+  if s = "" then "-" else String.concat "." (List.map (fun c -> Printf.sprintf "%x" (Char.code c)) (List.of_seq (String.to_seq s)))
+let index_in x l =
+  let rec go i = function [] -> None | y :: r -> if x = y then Some i else go (i + 1) r in go 0 l
+
+(* (c 0|1) (v i) (n f) (b op f g) (p namehex args...) *)
+let fn_of_sexpr (s : string) : fnupd =
+  let toks = ref (List.filter (fun x -> x <> "")
+      (String.split_on_char ' ' (String.concat " ) " (String.split_on_char ')' (String.concat " ( " (String.split_on_char '(' s)))))) in
+  let next () = match !toks with t :: r -> toks := r; t | [] -> failwith "sexpr: eof" in
+  let peek () = match !toks with t :: _ -> t | [] -> failwith "sexpr: eof" in
+  let rec node () =
+    if next () <> "(" then failwith "sexpr: (";
+    let k = next () in
+    let r = (match k with
+      | "c" -> let b = next () in FConst (b = "1")
+      | "v" -> FVar (nat_of_int (int_of_string (next ())))
+      | "n" -> FNot (node ())
+      | "b" -> let op = (match next () with
+                  | "and" -> BAnd | "or" -> BOr | "xor" -> BXor | "iff" -> BIff | "imp" -> BImp
+                  | _ -> failwith "sexpr: op") in
+               let l = node () in let r = node () in FBin (op, l, r)
+      | "p" -> let name = str_of_hex (next ()) in
+               let args = ref [] in
+               while peek () = "(" do args := node () :: !args done;
+               FParam (name, List.rev !args)
+      | _ -> failwith "sexpr: kind") in
+    if next () <> ")" then failwith "sexpr: )";
+    r in
+  node ()
+
+let rec params_of (f : fnupd) : str list =
+  match f with
+  | FConst _ | FVar _ -> []
+  | FNot g -> params_of g
+  | FBin (_, l, r) -> params_of l @ params_of r
+  | FParam (n, args) -> n :: List.concat (List.map params_of args)
+
 (* ---------- case handlers ---------- *)
 let world_of p n names upd unit_s : world =
   let lpn = x_layout_pn (nat_of_int p) (nat_of_int n) in
@@ -145,6 +190,71 @@ let handle (line : string) =
               Printf.sprintf "%s[%s]#%d" (hex_of_str c) (String.concat ";" ds) (int_of_nat cnt)) d in
           String.concat "," (List.sort compare items)) (trees fs) in
       answer id r
+  | "LOADF" :: id :: text :: _ ->
+      let fs = load_formulae (str_of_hex text) in
+      Printf.printf "%s OK %s\n" id (String.concat "," (List.map hex_of_str fs))
+  | "LABEL" :: id :: label :: _ ->
+      (* would the loader pick up the entry <label>.bdd, and under which label? *)
+      let entry = (str_of_hex label) @ s_dot_bdd in
+      let picked = (match extension entry with Some e -> str_eqb e s_bdd | None -> false) in
+      if not picked then Printf.printf "%s OK skipped\n" id
+      else (match strip_suffix s_dot_bdd entry with
+            | Some l -> Printf.printf "%s OK %s\n" id (hex_of_str l)
+            | None -> Printf.printf "%s ERR StripSuffix\n" id)
+  | "CONVM" :: id :: names :: present :: items :: _ ->
+      let names = List.map str_of_hex (split_on ',' names) in
+      let present = List.map int_of_string (split_on ',' present) in
+      let isvar (n : str) = List.exists (fun m -> str_eqb n m) names in
+      let fuel = nat_of_int 64 in
+      let out = List.filter_map (fun item ->
+          match String.split_on_char '|' item with
+          | [vi; regs; fx] ->
+              let vi = int_of_string vi in
+              let regs = if regs = "-" then [] else List.map int_of_string (String.split_on_char ';' regs) in
+              let upd = if fx = "-" then None else Some (fn_of_sexpr fx) in
+              let name = List.nth names vi in
+              let flat =
+                if regs = [] then upd
+                else Some (match upd with
+                    | Some f -> flatten_rs isvar fuel f
+                    | None -> explode_rs isvar fuel (List.map (fun r -> FVar (nat_of_int r)) regs) (pname name)) in
+              (match flat with
+               | None -> None
+               | Some f ->
+                   let ps0 = List.sort_uniq compare (List.map utf8_of_str (params_of f)) in
+                   let nv = List.length present in
+                   let value ps bitf =
+                     let s (v : nat) =
+                       let v = int_of_nat v in
+                       (match index_in v present with Some j -> bitf j | None -> false) in
+                     let rho (nm : str) =
+                       (match index_in (utf8_of_str nm) ps with Some j -> bitf (nv + j) | None -> false) in
+                     eval_flat rho s f in
+                   (* keep the constants the function really depends on (the implementation side
+                      reads them off the BDD support) *)
+                   let np0 = List.length ps0 in
+                   let depends j =
+                     let found = ref false in
+                     for idx = 0 to (1 lsl (nv + np0)) - 1 do
+                       if not !found then begin
+                         let bit i = (idx lsr (nv + np0 - 1 - i)) land 1 = 1 in
+                         if not (bit (nv + j)) then begin
+                           let flipped i = if i = nv + j then true else bit i in
+                           if value ps0 bit <> value ps0 flipped then found := true
+                         end
+                       end
+                     done; !found in
+                   let ps = List.filteri (fun j _ -> depends j) ps0 in
+                   let np = List.length ps in
+                   let buf = Buffer.create 64 in
+                   for idx = 0 to (1 lsl (nv + np)) - 1 do
+                     let bit j = (idx lsr (nv + np - 1 - j)) land 1 = 1 in
+                     Buffer.add_char buf (if value ps bit then '1' else '0')
+                   done;
+                   Some (Printf.sprintf "%s:%s:%s" (hex_of_str name)
+                           (String.concat ";" (List.map hex_of_utf8 ps)) (Buffer.contents buf)))
+          | _ -> failwith "bad CONVM item") (split_on ',' items) in
+      Printf.printf "%s OK %s\n" id (String.concat "," out)
   | [""] | [] -> ()
   | _ -> Printf.printf "? BADLINE %s\n" (String.sub line 0 (min 40 (String.length line)))
 
